@@ -146,117 +146,133 @@ fn grid1<S: Default + Clone>(v: S) -> jxl_grid::AlignedGrid<S> {
     g
 }
 
-#[kani::proof]
-#[kani::unwind(9)]
-fn copy_from_grid_u8_contract() {
-    let which: u8 = kani::any();
+fn outside_or_origin() -> (usize, usize, bool) {
     let inside: bool = kani::any();
     let (x, y) = if inside { (0usize, 0usize) } else { (kani::any(), kani::any()) };
     kani::assume(inside || x > 0 || y > 0);
-    let d8 = BitDepth::IntegerSample { bits_per_sample: 8 };
+    (x, y, inside)
+}
+const D8: BitDepth = BitDepth::IntegerSample { bits_per_sample: 8 };
+const D16: BitDepth = BitDepth::IntegerSample { bits_per_sample: 16 };
+
+#[kani::proof]
+#[kani::unwind(10)]
+fn copy_from_grid_u8_i32() {
+    let (x, y, inside) = outside_or_origin();
+    let v: i32 = kani::any();
     let mut out: u8 = kani::any();
-    match which {
-        0 => {
-            let v: i32 = kani::any();
-            out.copy_from_grid(&ImageBuffer::I32(grid1(v)), x, y, d8);
-            let e = if !inside { 0 } else if v < 0 { 0 } else if v > 255 { 255 } else { v as u8 };
-            assert!(out == e, "[C15] 8-bit integer samples are copied exactly, clamped to 0..=255, 0 outside the grid");
-        }
-        1 => {
-            let v: i16 = kani::any();
-            out.copy_from_grid(&ImageBuffer::I16(grid1(v)), x, y, d8);
-            let e = if !inside { 0 } else if v < 0 { 0 } else if v > 255 { 255 } else { v as u8 };
-            assert!(out == e, "[C15] 8-bit integer samples (16-bit buffer) are copied exactly, clamped, 0 outside the grid");
-        }
-        _ => {
-            let v = f32::from_bits(kani::any());
-            out.copy_from_grid(&ImageBuffer::F32(grid1(v)), x, y, d8);
-            let mut e = 0u8;
-            e.copy_from_f32(if inside { v } else { 0.0 });
-            assert!(out == e, "[C15] float samples take the same rounding in the fast path as copy_from_f32");
-        }
-    }
-    kani::cover!(which == 0 && inside && out == 200);
-    kani::cover!(which == 1 && !inside);
-    kani::cover!(which == 2 && inside && out == 3);
+    out.copy_from_grid(&ImageBuffer::I32(grid1(v)), x, y, D8);
+    let e = if !inside { 0 } else if v < 0 { 0 } else if v > 255 { 255 } else { v as u8 };
+    assert!(out == e, "[C15] 8-bit integer samples are copied exactly, clamped to 0..=255, 0 outside the grid");
+    kani::cover!(inside && out == 200);
+    kani::cover!(!inside);
 }
-
 #[kani::proof]
-#[kani::unwind(9)]
-fn copy_from_grid_u16_contract() {
-    let which: u8 = kani::any();
-    let inside: bool = kani::any();
-    let (x, y) = if inside { (0usize, 0usize) } else { (kani::any(), kani::any()) };
-    kani::assume(inside || x > 0 || y > 0);
-    let d16 = BitDepth::IntegerSample { bits_per_sample: 16 };
+#[kani::unwind(18)]
+fn copy_from_grid_u8_i16() {
+    let (x, y, inside) = outside_or_origin();
+    let v: i16 = kani::any();
+    let mut out: u8 = kani::any();
+    out.copy_from_grid(&ImageBuffer::I16(grid1(v)), x, y, D8);
+    let e = if !inside { 0 } else if v < 0 { 0 } else if v > 255 { 255 } else { v as u8 };
+    assert!(out == e, "[C15] 8-bit integer samples (16-bit buffer) are copied exactly, clamped, 0 outside the grid");
+    kani::cover!(inside && out == 200);
+}
+#[kani::proof]
+#[kani::unwind(10)]
+fn copy_from_grid_u8_f32() {
+    let (x, y, inside) = outside_or_origin();
+    let v = f32::from_bits(kani::any());
+    let mut out: u8 = kani::any();
+    out.copy_from_grid(&ImageBuffer::F32(grid1(v)), x, y, D8);
+    let mut e = 0u8;
+    e.copy_from_f32(if inside { v } else { 0.0 });
+    assert!(out == e, "[C15] float samples take the same rounding in the 8-bit fast path as copy_from_f32");
+    kani::cover!(inside && out == 3);
+}
+#[kani::proof]
+#[kani::unwind(10)]
+fn copy_from_grid_u16_i32() {
+    let (x, y, inside) = outside_or_origin();
+    let v: i32 = kani::any();
     let mut out: u16 = kani::any();
-    match which {
-        0 => {
-            let v: i32 = kani::any();
-            out.copy_from_grid(&ImageBuffer::I32(grid1(v)), x, y, d16);
-            let e = if !inside { 0 } else if v < 0 { 0 } else if v > 65535 { 65535 } else { v as u16 };
-            assert!(out == e, "[C15] 16-bit integer samples are copied exactly, clamped to 0..=65535, 0 outside the grid");
-        }
-        1 => {
-            let v: i16 = kani::any();
-            out.copy_from_grid(&ImageBuffer::I16(grid1(v)), x, y, d16);
-            let e = if !inside || v < 0 { 0 } else { v as u16 };
-            assert!(out == e, "[C15] 16-bit integer samples (16-bit buffer) are copied exactly, negative -> 0");
-        }
-        _ => {
-            let v = f32::from_bits(kani::any());
-            out.copy_from_grid(&ImageBuffer::F32(grid1(v)), x, y, d16);
-            let mut e = 0u16;
-            e.copy_from_f32(if inside { v } else { 0.0 });
-            assert!(out == e, "[C15] float samples take the same rounding in the fast path as copy_from_f32");
-        }
-    }
-    kani::cover!(which == 0 && inside && out == 40000);
-    kani::cover!(which == 1 && inside && out == 3);
-    kani::cover!(which == 2 && inside && out == 3);
+    out.copy_from_grid(&ImageBuffer::I32(grid1(v)), x, y, D16);
+    let e = if !inside { 0 } else if v < 0 { 0 } else if v > 65535 { 65535 } else { v as u16 };
+    assert!(out == e, "[C15] 16-bit integer samples are copied exactly, clamped to 0..=65535, 0 outside the grid");
+    kani::cover!(inside && out == 40000);
+}
+#[kani::proof]
+#[kani::unwind(18)]
+fn copy_from_grid_u16_i16() {
+    let (x, y, inside) = outside_or_origin();
+    let v: i16 = kani::any();
+    let mut out: u16 = kani::any();
+    out.copy_from_grid(&ImageBuffer::I16(grid1(v)), x, y, D16);
+    let e = if !inside || v < 0 { 0 } else { v as u16 };
+    assert!(out == e, "[C15] 16-bit integer samples (16-bit buffer) are copied exactly, negative -> 0");
+    kani::cover!(inside && out == 3);
+}
+#[kani::proof]
+#[kani::unwind(10)]
+fn copy_from_grid_u16_f32() {
+    let (x, y, inside) = outside_or_origin();
+    let v = f32::from_bits(kani::any());
+    let mut out: u16 = kani::any();
+    out.copy_from_grid(&ImageBuffer::F32(grid1(v)), x, y, D16);
+    let mut e = 0u16;
+    e.copy_from_f32(if inside { v } else { 0.0 });
+    assert!(out == e, "[C15] float samples take the same rounding in the 16-bit fast path as copy_from_f32");
+    kani::cover!(inside && out == 3);
 }
 
 // ---------------------------------------------------------------------------------------------------
-// FrameBuffer::from_grids: output dimensions and coordinate map == spec_orientation (bounded: copy region <= 3x3,
-// 2 channels: a 3x3 f32 grid and a 2x2 16-bit integer grid, each with its own region offset)
+// FrameBuffer::from_grids: output dimensions and coordinate map == spec_orientation.
+// Bounded: copy region 3x2 (non-square, so that the transposing orientations are distinguishable), 2 channels: a 3x2 and
+// a 2x2 f32 grid, every region / copy offset in -1..=1, every sample value symbolic (integer channels: from_grids_int).
 // ---------------------------------------------------------------------------------------------------
+const CW: usize = 3;
+const CH: usize = 2;
 fn from_grids_for(o: u32) {
-    let mut g0 = jxl_grid::AlignedGrid::<f32>::with_alloc_tracker(3, 3, None).unwrap();
-    let vals0: [f32; 9] = kani::any();
+    let mut g0 = jxl_grid::AlignedGrid::<f32>::with_alloc_tracker(CW, CH, None).unwrap();
+    let vals0: [f32; CW * CH] = kani::any();
     let mut i = 0;
-    while i < 9 {
+    while i < CW * CH {
         kani::assume(!vals0[i].is_nan());
-        g0.buf_mut()[i] = vals0[i];
+        *g0.get_mut(i % CW, i / CW) = vals0[i];
         i += 1;
     }
-    let mut g1 = jxl_grid::AlignedGrid::<i16>::with_alloc_tracker(2, 2, None).unwrap();
-    let vals1: [i16; 4] = kani::any();
+    let mut g1 = jxl_grid::AlignedGrid::<f32>::with_alloc_tracker(2, 2, None).unwrap();
+    // the allocator hands out 32-byte aligned blocks (AlignedGrid's internal offset is then 0; its offset logic
+    // belongs to jxl-grid, not to this contract)
+    kani::assume(g0.buf().as_ptr() as usize % 32 == 0 && g1.buf().as_ptr() as usize % 32 == 0);
+    let vals1: [f32; 4] = kani::any();
     i = 0;
     while i < 4 {
-        g1.buf_mut()[i] = vals1[i];
+        kani::assume(!vals1[i].is_nan());
+        *g1.get_mut(i % 2, i / 2) = vals1[i];
         i += 1;
     }
     let b0 = ImageBuffer::F32(g0);
-    let b1 = ImageBuffer::I16(g1);
-    let depth = [BitDepth::IntegerSample { bits_per_sample: 8 }, BitDepth::IntegerSample { bits_per_sample: 8 }];
-    let small = |v: i32| -2 <= v && v <= 2;
+    let b1 = ImageBuffer::F32(g1);
+    let depth = [D8, D8];
+    let small = |v: i32| -1 <= v && v <= 1;
     let regions = [
-        Region { left: kani::any(), top: kani::any(), width: 3, height: 3 },
+        Region { left: kani::any(), top: kani::any(), width: CW as u32, height: CH as u32 },
         Region { left: kani::any(), top: kani::any(), width: 2, height: 2 },
     ];
-    let copy = Region { left: kani::any(), top: kani::any(), width: kani::any(), height: kani::any() };
+    let copy = Region { left: kani::any(), top: kani::any(), width: CW as u32, height: CH as u32 };
     kani::assume(small(regions[0].left) && small(regions[0].top) && small(regions[1].left) && small(regions[1].top));
-    kani::assume(small(copy.left) && small(copy.top) && copy.width <= 3 && copy.height <= 3);
+    kani::assume(small(copy.left) && small(copy.top));
     let fb = FrameBuffer::from_grids(&[&b0, &b1], &depth, &regions, copy, o);
 
-    let (w, h) = (copy.width as i64, copy.height as i64);
+    let (w, h) = (CW as i64, CH as i64);
     let (ow, oh) = spec_oriented_dims(o, w, h);
     assert!(fb.width() as i64 == ow && fb.height() as i64 == oh && fb.channels() == 2, "[C15] from_grids: output dimensions are the oriented dimensions");
     assert!(fb.buf().len() as i64 == ow * oh * 2, "[C15] from_grids: buffer length is width*height*channels");
     // one symbolic stored position and channel
-    let (x, y): (u32, u32) = (kani::any(), kani::any());
+    let (x, y): (usize, usize) = (kani::any(), kani::any());
     let c: usize = kani::any();
-    kani::assume(x < copy.width && y < copy.height && c < 2);
+    kani::assume(x < CW && y < CH && c < 2);
     let (dx, dy) = spec_orientation(o, w, h, x as i64, y as i64);
     let idx = c as i64 + (dx + dy * ow) * 2;
     assert!(0 <= idx && idx < ow * oh * 2);
@@ -264,22 +280,23 @@ fn from_grids_for(o: u32) {
     // sample (x, y) of the copy region is sample (x + left - region.left, y + top - region.top) of the channel's grid
     let gx = x as i64 + copy.left as i64 - regions[c].left as i64;
     let gy = y as i64 + copy.top as i64 - regions[c].top as i64;
-    let dim = if c == 0 { 3 } else { 2 };
-    let expect = if gx < 0 || gy < 0 || gx >= dim || gy >= dim {
+    let (gw, gh) = if c == 0 { (CW as i64, CH as i64) } else { (2, 2) };
+    let expect = if gx < 0 || gy < 0 || gx >= gw || gy >= gh {
         0.0
     } else if c == 0 {
-        vals0[(gy * 3 + gx) as usize]
+        vals0[(gy * gw + gx) as usize]
     } else {
-        depth[1].parse_integer_sample(vals1[(gy * 2 + gx) as usize] as i32)
+        vals1[(gy * gw + gx) as usize]
     };
     assert!(got.to_bits() == expect.to_bits(), "[C15] from_grids: stored sample (x,y) of channel c lands at spec_orientation(x,y), interleaved at index c; 0 outside the channel");
-    kani::cover!(copy.width == 3 && copy.height == 2 && x == 2 && y == 1 && c == 1 && expect != 0.0);
-    kani::cover!(c == 0 && (gx < 0 || gy >= 3));
+    kani::cover!(x == 2 && y == 1 && c == 1 && expect != 0.0);
+    kani::cover!(c == 0 && (gx < 0 || gy >= gh));
+    kani::cover!(c == 0 && x == 2 && y == 0 && expect != 0.0);
 }
 macro_rules! fg {
     ($name:ident, $o:expr) => {
         #[kani::proof]
-        #[kani::unwind(10)]
+        #[kani::unwind(18)]
         fn $name() {
             from_grids_for($o);
         }
@@ -293,6 +310,24 @@ fg!(from_grids_o5, 5);
 fg!(from_grids_o6, 6);
 fg!(from_grids_o7, 7);
 fg!(from_grids_o8, 8);
+
+/// integer channels go through BitDepth::parse_integer_sample with the channel's own bit depth (1x1 copy region)
+#[kani::proof]
+#[kani::unwind(18)]
+fn from_grids_int() {
+    let (v0, v1): (i32, i16) = (kani::any(), kani::any());
+    let b0 = ImageBuffer::I32(grid1(v0));
+    let b1 = ImageBuffer::I16(grid1(v1));
+    let depth = [D16, D8];
+    let one = Region { left: 0, top: 0, width: 1, height: 1 };
+    let o: u32 = kani::any();
+    kani::assume(1 <= o && o <= 8);
+    let fb = FrameBuffer::from_grids(&[&b0, &b1], &depth, &[one, one], one, o);
+    assert!(fb.width() == 1 && fb.height() == 1 && fb.channels() == 2 && fb.buf().len() == 2, "[C15] from_grids: 1x1x2");
+    assert!(fb.buf()[0].to_bits() == D16.parse_integer_sample(v0).to_bits(), "[C15] from_grids: 32-bit integer channel scaled by its own bit depth");
+    assert!(fb.buf()[1].to_bits() == D8.parse_integer_sample(v1 as i32).to_bits(), "[C15] from_grids: 16-bit integer channel scaled by its own bit depth");
+    kani::cover!(o == 7 && v1 == 255);
+}
 
 #[kani::proof]
 fn canary() {
